@@ -25,6 +25,12 @@ struct CppOps : TaskOps {
   void discovered(const std::string& key) override { ti.discoveredDependency(KeyType(key)); }
   void complete(const std::string& value, bool force) override { ti.complete(toVal(value), force); }
   TaskOps* clone() const override { return new CppOps(ti); }
+  struct Desc : basic::JobDescriptor {
+    StringRef getOrdinalName() const override { return "enginemon"; }
+    void getShortDescription(SmallVectorImpl<char>& r) const override { r.push_back('j'); }
+    void getVerboseDescription(SmallVectorImpl<char>& r) const override { r.push_back('j'); }
+  };
+  bool spawn(std::function<void()> fn) override { static Desc d; ti.spawn(basic::QueueJob{&d, [fn](basic::QueueJobContext*) { fn(); }}); return true; }
 };
 
 struct CppTask : Task {
@@ -90,6 +96,7 @@ struct CppFront : EngineFront {
   std::string build(const std::string& key) override { return toStr(engine->build(KeyType(key))); }
   void cancel() override { engine->cancelBuild(); }
   void reset() override { engine->resetForBuild(); }
+  void useLaneQueue() override { del.laneQueue = true; }
 };
 
 // the process-wide engine hook dispatches to the context that is currently inside build()
